@@ -168,7 +168,7 @@ func checkC06Concurrent(c c06ConcCase) error {
 	shortKey := rc.Encode(rc.Map(rc.E(rc.Int(1), rc.Int(2)), rc.E(rc.Int(-1), rc.Int(1)),
 		rc.E(rc.Int(-2), rc.Bytes(bytes.Repeat([]byte{7}, 31))), rc.E(rc.Int(-3), rc.Bytes(bytes.Repeat([]byte{9}, 30)))), nil)
 	msgWire, _ := hex.DecodeString("d28443a10127a1044161417043010203")
-	for r := 0; r < 300 && bad == ""; r++ {
+	for r := 0; r < 4000 && bad == ""; r++ {
 		var k cose.Key
 		if err := k.UnmarshalCBOR(shortKey); err != nil {
 			break
